@@ -94,6 +94,11 @@ Qed.
 Lemma sep_no_nl_sep : forall c, is_sep_no_nl c = true -> is_sep c = true.
 Proof. intros c. unfold is_sep_no_nl, is_sep. rewrite !orb_true_iff. tauto. Qed.
 
+Lemma text_eqb_sym : forall a b, text_eqb a b = text_eqb b a.
+Proof.
+  induction a as [|x a IH]; intros [|y b]; cbn; try reflexivity. rewrite N.eqb_sym, IH. reflexivity.
+Qed.
+
 (** * items *)
 Definition bsl_tok : stoken := [Naked [BSL]].
 Definition tok_of (i : litem) : stoken := match i with LTok t _ => t | LCont _ _ => bsl_tok end.
@@ -254,9 +259,9 @@ Section ListLoop.
         rewrite first_line_app by assumption. rewrite tail_first_line by assumption. rewrite app_nil_r.
         destruct seps; [reflexivity|]. unfold py_str_isspace. rewrite Hs3. reflexivity. }
       rewrite Heol. cbn [negb]. eexists. exists pre, seps. rewrite app_nil_r. cbn [elements flat_map].
-      repeat split; auto.
+      repeat split; auto. rewrite app_nil_r. reflexivity.
     - pose proof Hinv as (Herr & Hhead & Hio & Heof).
-      destruct ts as [src io start head err eof]. cbn [ts_src ts_start ts_err ts_head ts_io ts_eof] in *. subst src start err.
+      destruct ts as [src io start head err eof]. cbn [ts_src ts_start ts_err ts_head ts_io ts_eof] in *. subst src start err head.
       destruct (sep_no_nl_facts _ Hseps) as (Hs1 & Hs2 & Hs3).
       destruct (tok_of_wf _ _ Hwf) as [Htok Htoknl].
       set (src := pre ++ seps ++ body (i :: its) ++ tail) in *.
@@ -264,8 +269,8 @@ Section ListLoop.
       assert (Hline : forall io' head' err' eof',
                  ts_remaining_part_of_current_line (TS src io' (length pre) head' err' eof') = seps ++ render_tok (tok_of i) ++ Y).
       { intros. unfold src. rewrite remaining_is_first_line. apply line_of_item; assumption. }
-      assert (Hneol : tp_is_at_eol (TS src io (length pre) head false eof) = false).
-      { unfold tp_is_at_eol. rewrite Hline. rewrite line_not_blank by assumption.
+      assert (Hneol : forall hd, tp_is_at_eol (TS src io (length pre) hd false eof) = false).
+      { intros hd. unfold tp_is_at_eol. rewrite Hline. rewrite line_not_blank by assumption.
         destruct (solid_first _ _ (tok_solid _ Htok)) as (c & r & E & _). rewrite E.
         destruct seps; reflexivity. }
       rewrite Hneol. cbn [negb]. rewrite Hline.
@@ -288,18 +293,18 @@ Section ListLoop.
           rewrite body_cons in C. rewrite <- !app_assoc in C. rewrite first_line_app in C by assumption.
           destruct (solid_first _ _ (tok_solid _ Htok')) as (c' & r' & E' & Hc'). rewrite E' in C.
           rewrite !forallb_app in C. cbn [forallb app] in C. rewrite Hc' in C.
-          rewrite andb_false_r in C. cbn in C. rewrite andb_false_r in C. discriminate. }
+          cbn [andb] in C. rewrite andb_false_r in C. discriminate. }
         rewrite Hcont.
         (* not the stopping parenthesis *)
-        assert (Hnp : tp_has_valid_head_unquoted_equals [41] (TS src io (length pre) head false eof) = false).
-        { unfold tp_has_valid_head_unquoted_equals. cbn [ts_head]. rewrite Hhead.
+        assert (Hnp : tp_has_valid_head_unquoted_equals [41] (TS src io (length pre) (Some (spec_token t)) false eof) = false).
+        { unfold tp_has_valid_head_unquoted_equals. cbn [ts_head].
           unfold spec_token, is_quoted, is_plain, tok_type. cbn [t_type t_string].
           destruct (tok_quoted t); cbn [negb]; [apply andb_false_r|]. cbn [negb andb] in Hparen.
-          rewrite text_eqb_sym_aux in Hparen. rewrite Hparen. apply andb_false_r. }
+          rewrite text_eqb_sym in Hparen. rewrite Hparen. apply andb_false_r. }
         rewrite Hnp.
         (* the element parser *)
         unfold parse_symref_or_string, parse_fragments_w_is_plain.
-        unfold ts_is_null. cbn [ts_head]. rewrite Hhead.
+        unfold ts_is_null. cbn [ts_head].
         (* the consume: establishes the invariant for the rest *)
         set (rest := sep ++ body its ++ tail) in *.
         set (k := adv rest) in *.
@@ -321,46 +326,105 @@ Section ListLoop.
           rewrite (app_assoc (firstn k sep)), firstn_skipn. reflexivity. }
         assert (Eio : io = length pre2).
         { rewrite Hio. unfold pre2. rewrite !app_length, firstn_length. fold rest. fold k. lia. }
-        destruct (establish_inv its pre2 (skipn k sep) tail (length pre) head eof Hwf' Hk2 Htail) as (ts1 & Hc & Hsrc1 & Hst1 & Hinv1).
+        destruct (establish_inv its pre2 (skipn k sep) tail (length pre) (Some (spec_token t)) eof Hwf' Hk2 Htail) as (ts1 & Hc & Hsrc1 & Hst1 & Hinv1).
         { intros Hne. rewrite Heof. fold rest. auto. }
         rewrite <- Esrc, <- Eio in Hc. rewrite Hc. cbn [bind fst snd].
         rewrite (model_not_reserved t Hres). rewrite parse_fragments_spec_token by assumption.
-        destruct (IH fuel (acc ++ [element_of t]) pre2 (skipn k sep) tail ts1 Hwf' Hk2 Htail Hsrc1 Hst1 Hinv1 ltac:(cbn [length] in Hfuel; lia))
-          as (ts' & pre' & seps' & Hloop & Hs' & Hst' & Hsp' & Hcat).
-        assert (Hel : (match (match fragments_of alnum t with
-                              | [FSym name] => if is_plain (spec_token t) then (inl name, ts1) else (inr (fragments_of alnum t), ts1)
-                              | _ => (inr (fragments_of alnum t), ts1) end) with (inl name, _) => ESym name | (inr frs, _) => EStr frs end)
-                      = element_of t /\ True) by (split; [|exact I];
-          unfold element_of, is_plain, spec_token, tok_type; cbn [t_type];
-          destruct (fragments_of alnum t) as [|[c|n] [|f frs]]; try reflexivity; destruct (tok_quoted t); reflexivity).
-        clear Hel.
-        exists ts', pre', seps'.
-        split.
-        * assert (G : forall X, (do r <- (match fragments_of alnum t with
-                            | [FSym name] => if is_plain (spec_token t) then Ok (inl name, ts1) else Ok (inr (fragments_of alnum t), ts1)
-                            | _ => Ok (inr (fragments_of alnum t), ts1) end : res ((text + list fragment) * tstream));
-                           X r) = X (match fragments_of alnum t with
-                            | [FSym name] => if is_plain (spec_token t) then (inl name, ts1) else (inr (fragments_of alnum t), ts1)
-                            | _ => (inr (fragments_of alnum t), ts1) end)).
-          { intros X. destruct (fragments_of alnum t) as [|[c|n] [|f frs]]; try reflexivity. destruct (is_plain (spec_token t)); reflexivity. }
-          cbn [fst snd].
-          match goal with |- (do r <- ?M; ?K) = _ => idtac end.
-          rewrite (G (fun r => list_loop alnum fuel (acc ++ [match fst r with inl name => ESym name | inr frs => EStr frs end]) (snd r))).
-          assert (E1 : forall (x : (text + list fragment) * tstream), True) by auto. clear E1.
-          replace (match fst (match fragments_of alnum t with
-                            | [FSym name] => if is_plain (spec_token t) then (inl name, ts1) else (inr (fragments_of alnum t), ts1)
-                            | _ => (inr (fragments_of alnum t), ts1) end) with inl name => ESym name | inr frs => EStr frs end)
-            with (element_of t)
-            by (unfold element_of, is_plain, spec_token, tok_type; cbn [t_type];
-                destruct (fragments_of alnum t) as [|[c|n] [|f frs]]; try reflexivity; destruct (tok_quoted t); reflexivity).
-          replace (snd (match fragments_of alnum t with
-                            | [FSym name] => if is_plain (spec_token t) then (inl name, ts1) else (inr (fragments_of alnum t), ts1)
-                            | _ => (inr (fragments_of alnum t), ts1) end)) with ts1
-            by (destruct (fragments_of alnum t) as [|[c|n] [|f frs]]; try reflexivity; destruct (is_plain (spec_token t)); reflexivity).
-          rewrite Hloop. cbn [elements flat_map]. rewrite <- app_assoc. reflexivity.
-        * repeat split; auto. rewrite Hcat. unfold pre2. rewrite body_cons. cbn [tok_of after_tok]. rewrite <- !app_assoc.
-          rewrite (app_assoc (firstn k sep)), firstn_skipn. reflexivity.
+        assert (Hfin : forall el, el = element_of t ->
+                  exists ts' pre' seps',
+                    list_loop alnum fuel (acc ++ [el]) ts1 = Ok (acc ++ elements (LTok t sep :: its), ts') /\
+                    ts_src ts' = pre' ++ seps' ++ tail /\ ts_start ts' = length pre' /\ forallb is_sep_no_nl seps' = true /\
+                    pre' ++ seps' = pre ++ seps ++ body (LTok t sep :: its)).
+        { intros el ->.
+          destruct (IH fuel (acc ++ [element_of t]) pre2 (skipn k sep) tail ts1 Hwf' Hk2 Htail Hsrc1 Hst1 Hinv1 ltac:(cbn [length] in Hfuel; lia))
+            as (ts' & pre' & seps' & Hloop & Hs' & Hst' & Hsp' & Hcat).
+          exists ts', pre', seps'. split; [rewrite Hloop; cbn [elements flat_map]; rewrite <- app_assoc; reflexivity|].
+          repeat split; auto. rewrite Hcat. unfold pre2. rewrite body_cons. cbn [tok_of after_tok]. rewrite <- !app_assoc.
+          rewrite (app_assoc (firstn k sep)), firstn_skipn. reflexivity. }
+        unfold element_of in Hfin. unfold is_plain, spec_token, tok_type. cbn [t_type].
+        destruct (fragments_of alnum t) as [|[c|n] [|f frs]]; cbn [bind fst snd]; try (apply Hfin; reflexivity).
+        destruct (tok_quoted t); cbn [bind fst snd]; apply Hfin; reflexivity.
       + (* a continuation line *)
-        admit.
-  Abort.
+        cbn [wfl] in Hwf. rewrite !andb_true_iff in Hwf. destruct Hwf as [[Hsp1 Hsp2] Hwf'].
+        destruct (sep_no_nl_facts _ Hsp1) as (Hq1 & Hq2 & Hq3).
+        assert (EY : Y = sp1).
+        { unfold Y. rewrite <- app_assoc. rewrite first_line_app by assumption. cbn [app]. rewrite first_line_nl. apply app_nil_r. }
+        rewrite EY. rewrite rstrip_all_space by assumption.
+        change (render_tok bsl_tok ++ []) with [BSL]. rewrite text_eqb_refl.
+        (* consuming the line *)
+        set (l := seps ++ [BSL] ++ sp1).
+        assert (Hl : no_nl l = true).
+        { unfold l, no_nl in *. rewrite !existsb_app, !negb_orb. rewrite Hs2, Hq2. reflexivity. }
+        assert (Esrc : src = pre ++ l ++ NL :: (sp2 ++ body its ++ tail)).
+        { unfold src, l. rewrite body_cons. cbn [tok_of after_tok]. rewrite <- !app_assoc. reflexivity. }
+        assert (Hne : Nat.eqb (length pre) (length src) = false).
+        { apply Nat.eqb_neq. rewrite Esrc, !app_length. cbn [length]. lia. }
+        assert (Hfind : find_nl src (length pre) = Some (length pre + length l)%nat) by (rewrite Esrc; apply find_nl_at; assumption).
+        assert (Hret : slice src (length pre) (length pre + length l) = l) by (rewrite Esrc; apply slice_mid; reflexivity).
+        assert (Hnb : nonempty l && negb (py_str_isspace l) = true).
+        { unfold l. change ([BSL] ++ sp1) with (render_tok bsl_tok ++ sp1). rewrite line_not_blank by reflexivity.
+          destruct seps; reflexivity. }
+        unfold ts_consume_line. cbn [ts_src ts_start ts_io ts_head ts_err ts_eof]. rewrite Hne, Hfind, Hret, Hnb.
+        pose (pre2 := pre ++ l ++ [NL]).
+        assert (Esrc2 : src = pre2 ++ sp2 ++ body its ++ tail) by (rewrite Esrc; unfold pre2; rewrite <- !app_assoc; reflexivity).
+        assert (Elen2 : (length pre + length l + 1)%nat = length pre2) by (unfold pre2; len).
+        rewrite Elen2, Esrc2.
+        destruct (establish_inv its pre2 sp2 tail (length pre) (Some (spec_token bsl_tok)) eof Hwf' Hsp2 Htail) as (ts1 & Hc & Hsrc1 & Hst1 & Hinv1).
+        { intros _. rewrite Heof. destruct sp1; reflexivity. }
+        rewrite Hc. cbn [bind snd].
+        destruct (IH fuel acc pre2 sp2 tail ts1 Hwf' Hsp2 Htail Hsrc1 Hst1 Hinv1 ltac:(cbn [length] in Hfuel; lia))
+          as (ts' & pre' & seps' & Hloop & Hs' & Hst' & Hsp' & Hcat).
+        exists ts', pre', seps'. split; [rewrite Hloop; reflexivity|].
+        repeat split; auto. rewrite Hcat. unfold pre2, l. rewrite body_cons. cbn [tok_of after_tok]. rewrite <- !app_assoc. reflexivity.
+  Qed.
+
+  Lemma body_length : forall its, wfl its = true -> (length its <= length (body its))%nat.
+  Proof.
+    induction its as [|i its IH]; intros H; [cbn; lia|].
+    destruct (tok_of_wf _ _ H) as [Htok _]. destruct (tok_first_char _ Htok) as (c & r & E & _).
+    assert (H' : wfl its = true) by (destruct i; cbn [wfl] in H; rewrite !andb_true_iff in H; tauto).
+    specialize (IH H'). rewrite body_cons, E, !app_length. cbn [length]. lia.
+  Qed.
+
+  Lemma after_tail : forall after, render_after after = [] \/ exists a, render_after after = NL :: a.
+  Proof. intros [a|]; [right; exists a; reflexivity | left; reflexivity]. Qed.
+
+  (** C09_list_elements: a list written as  lead item ... item [NL after]  where an item is a string
+      token followed by blanks, or a lone backslash, blanks, new-line, blanks (the continuation):
+      the elements are exactly the written tokens, in order, each with the fragments of
+      C09_substitution (a naked token that is exactly one symbol reference becomes a symbol
+      element); the parser stops at the end of the (last) line. *)
+  Theorem list_elements : forall lead its after,
+    forallb is_sep_no_nl lead = true -> wfl its = true ->
+    exists ts ts',
+      ts_init (lead ++ body its ++ render_after after) = Ok ts /\
+      list_parse alnum ts = Ok (elements its, ts') /\
+      ts_position ts' = length (lead ++ body its).
+  Proof.
+    intros lead its after Hlead Hwf.
+    pose proof (after_tail after) as Htail. set (tail := render_after after) in *.
+    destruct (establish_inv its [] lead tail 0%nat None false Hwf Hlead Htail ltac:(auto)) as (ts0 & Hc & Hsrc0 & Hst0 & Hinv0).
+    cbn [app length] in Hc, Hsrc0, Hst0.
+    unfold ts_init. rewrite Hc. cbn [bind snd]. exists ts0.
+    unfold list_parse.
+    destruct (list_loop_spec its (2 * length (ts_src ts0) + 2) [] [] lead tail ts0 Hwf Hlead Htail Hsrc0 Hst0 Hinv0)
+      as (ts1 & pre' & seps' & Hloop & Hsrc1 & Hst1 & Hsp' & Hcat).
+    { pose proof (body_length its Hwf). rewrite Hsrc0, !app_length. lia. }
+    rewrite Hloop. cbn [bind fst snd app].
+    destruct ts1 as [src1 io1 start1 head1 err1 eof1]. cbn [ts_src ts_start] in Hsrc1, Hst1. subst src1 start1.
+    destruct (sep_no_nl_facts _ Hsp') as (_ & Hq2 & Hq3).
+    assert (Heol : tp_is_at_eol (TS (pre' ++ seps' ++ tail) io1 (length pre') head1 err1 eof1) = true).
+    { unfold tp_is_at_eol. rewrite remaining_is_first_line. rewrite first_line_app by assumption.
+      rewrite tail_first_line by assumption. rewrite app_nil_r.
+      destruct seps'; [reflexivity|]. unfold py_str_isspace. rewrite Hq3. reflexivity. }
+    rewrite Heol.
+    destruct (consume_line_spec false (TS (pre' ++ seps' ++ tail) io1 (length pre') head1 err1 eof1)) as (ts2 & Hc2 & Hsrc2 & Hst2).
+    rewrite Hc2. cbn [bind fst snd]. exists ts2. split; [reflexivity|]. split; [reflexivity|].
+    unfold ts_position. rewrite Hst2. cbn [ts_src ts_start].
+    assert (Hn : next_start false (pre' ++ seps' ++ tail) (length pre') = (length pre' + length seps')%nat).
+    { destruct Htail as [-> | (a & ->)].
+      - rewrite app_nil_r. destruct (line_last pre' seps' false Hq2) as [_ H2]. rewrite H2, app_length. reflexivity.
+      - destruct (line_with_nl pre' seps' a false Hq2) as [_ H2]. rewrite H2. lia. }
+    rewrite Hn. rewrite <- app_length, Hcat. cbn [app]. reflexivity.
+  Qed.
 End ListLoop.
